@@ -23,6 +23,10 @@ namespace lstar {
 struct Tagged {
   double v = 0;
   int i = -1;
+  // The routine must order values with the comparator it is given, never with the type's own operator<: this one is
+  // the OPPOSITE order, so that any direct use of < shows as a wrong diagram (without it such code would not compile
+  // against this harness, which is an infrastructure failure, not a verdict).
+  friend bool operator<(const Tagged& a, const Tagged& b) { return b.v < a.v; }
 };
 }  // namespace lstar
 namespace std {
